@@ -209,6 +209,20 @@ CHECKS = {
              "be missed (a seeded std HashMap shows within 2).",
         technique="TLA+ spec (Determinism) + trace validation of expansion digests across processes and orders",
         design="4 (C19)"),
+    "C20": dict(
+        text="The cfg gating graph is extracted from the working tree (module guards and create_derive! features of "
+             "impl/src/lib.rs, cfg attributes on the helpers of utils.rs, crate::utils/attr uses of every module, facade items of "
+             "src/lib.rs and the derive_more::X names the expanders emit, optional crates vs the features activating them) into a "
+             "generated constants module; Features.tla checks guard(A) => guard(B) for every edge over ALL feature sets and "
+             "state-wise for every single feature and pair, plus derive exposure. Real builds from the working tree - every "
+             "single feature x {no std, std}: cargo check of the proc-macro crate and `cargo test --tests` of the facade (the "
+             "repository's own test programs for that configuration); thorough: all 276 pairs x {no std, std} cargo check - "
+             "are recorded as events and validated by TLC (Trace_Features).",
+        note="the scanner sees syntactic uses only; cfg expressions other than feature/any/all are skipped and listed in the "
+             "evidence; warnings are not denied (the repository's CI does that on nightly with testing-helpers, which is not "
+             "available offline).",
+        technique="TLA+ spec (Features) over the extracted cfg gating graph + trace validation of real cargo builds",
+        design="4 (C20)"),
 }
 
 NOT_YET = {}
